@@ -13,6 +13,13 @@ RTV/Gen/Regexes.lean, plus the character tables (`\\d`, `\\w`, `\\s`) of the run
   nullable body) raise `Unsupported` for that pattern: the pattern is then emitted as a comment and listed in
   `unsupported`, which the checks that need it report.
 
+* No translated pattern may be able to match the empty string (`nullable`, the same syntactic test as
+  `RTV.Re.nullable`): `RTV.Re.findAll` continues one position further after an empty match whereas `finditer` of
+  `re` / `regex` retries at the same position for a non-empty match (RTV/Lemmas/ReNullable.lean: for patterns that are
+  not nullable the two coincide, `findAll_eq_findAllPy`).  `generate()` raises on such a pattern (reported by every
+  check that runs this translator) and RTV/Gen/RegexIndex.lean carries the kernel-checked counterpart
+  `allRegexes_finditer_safe` over the emitted list.
+
 The translation is validated on every run by the regex correspondence in harness/corr/c13.py (Lean matcher through
 the driver vs the real `regex` module on strings built from each pattern's own classes)."""
 import os
@@ -307,6 +314,16 @@ def nullable(n):
     return True
 
 
+def finditer_safe(n):
+    """`RTV.Re.finditerSafe`: not nullable, or the empty pattern (for which both iterations give every position)"""
+    return not nullable(n) or n == ('seq', [])
+
+
+NULLABLE_MSG = ('%s: pattern(s) that can match the empty string: %s. RTV.Re.findAll continues one position further '
+                'after an empty match, finditer of re/regex retries at the same position for a non-empty match '
+                '(RTV/Lemmas/ReNullable.lean); such a pattern needs RTV.Re.findAllPy in the model that uses it')
+
+
 def parse(pattern, flags):
     """pattern text, regex flags -> python AST (top level is a ('seq', …))."""
     text = re.sub(r'\(\?<([A-Za-z_])', r'(?P<\1', pattern)
@@ -414,6 +431,9 @@ def generate():
     Gen/ReTables.lean (engine tables), Gen/Regexes.lean (sequence patterns + translator self-test patterns),
     Gen/RegexesChoice.lean (boolean patterns), Gen/RegexIndex.lean (name -> RE for the driver)."""
     ok, raw, bad = translated()
+    null = [name for name, ast, _, _, _ in ok if nullable(ast)]
+    if null:
+        raise ValueError(NULLABLE_MSG % ('regexes', ', '.join(null)))
     src = 'resource modules of the working tree + tables of regex %s' % regex.__version__
     tables = HEADER % ('regexes', src)
     tables += 'import RTV.Model.Re\nimport RTV.Model.Py\nset_option maxRecDepth 1000000\nnamespace RTV.Gen\nopen RTV.Re\n\n'
@@ -452,6 +472,10 @@ def generate():
     idx += 'import RTV.Gen.Regexes\nimport RTV.Gen.RegexesChoice\nnamespace RTV.Gen\nopen RTV.Re\n\n'
     idx += 'def allRegexes : List (String × RE) := [\n' + ',\n'.join('  ("%s", %s)' % (n, n) for n in names) + ']\n\n'
     idx += 'def unsupportedRegexes : List String := [%s]\n\n' % ', '.join('"%s"' % n for n, _, _ in bad)
+    idx += ('/-- No translated pattern can match the empty string (`RTV.Re.nullable`, sound by `ends_progress`): on every\n'
+            'one of them `RTV.Re.findAll` is the `finditer` of `re` / `regex` (`findAll_eq_findAllPy`, '
+            'RTV/Lemmas/ReNullable.lean). -/\n'
+            'theorem allRegexes_finditer_safe : (allRegexes.all fun p => !nullable p.2) = true := by decide +kernel\n\n')
     idx += 'end RTV.Gen\n'
     return [(os.path.join(GEN, 'ReTables.lean'), tables), (os.path.join(GEN, 'Regexes.lean'), seq),
             (os.path.join(GEN, 'RegexesChoice.lean'), cho), (os.path.join(GEN, 'RegexIndex.lean'), idx)]
